@@ -50,7 +50,7 @@ def plan(tier, seed):
 
 
 def required(tier):
-    cl = ['route:ordinary', 'route:antimeridian', 'route:polar', 'route:high',
+    cl = ['route:ordinary', 'route:antimeridian', 'route:polar', 'route:high', 'route:short-hop',
           'route:above-cruise', 'route:close', 'capacity:aligned', 'capacity:not-aligned',
           'outcome:flown', 'outcome:rejected', 'mass-iteration:on', 'mass-iteration:off',
           'resampled:own-times', 'table:sample', 'table:variant', 'table:low-ceiling', 'starting-mass:given',
